@@ -2,8 +2,9 @@
 package c17
 
 import (
-	"strconv"
+	"context"
 	"html/template"
+	"strconv"
 
 	plush "github.com/gobuffalo/plush/v5"
 
@@ -17,6 +18,7 @@ func init() {
 	vrt.Register("C17_content_for_of", ContentForOf)
 	vrt.Register("C17_block_helper", BlockHelper)
 	vrt.Register("C17_block_left_early", BlockLeftEarly)
+	vrt.Register("C17_go_context_in_scopes", GoContextInScopes)
 	vrt.Register("C17_nested_partials", NestedPartials)
 	vrt.Register("C17_shared_data_map", SharedDataMap)
 	vrt.Register("C17_content_of_in_scopes", ContentOfInScopes)
@@ -390,5 +392,54 @@ func SameCallSiteAgain() {
 	vrt.Note("got", got)
 	vrt.Assert(err == nil, "a helper call evaluated again in another scope renders")
 	vrt.Assert(got == k.want, "every evaluation of a helper call renders in the scope it is made from")
+	vrt.Cover("done")
+}
+
+// ---- "the same text as inline in the caller's scope" also for helpers that ask their
+// context for what the Go context carries (a value under a key that is not a string)
+type goKey struct{}
+
+type valueCtx struct {
+	context.Context
+	v string
+}
+
+func (c valueCtx) Value(k interface{}) interface{} {
+	if _, ok := k.(goKey); ok {
+		return c.v
+	}
+	return c.Context.Value(k)
+}
+
+func GoContextInScopes() {
+	v := vrt.BytesIn(2, "ab<")
+	mk := func() *plush.Context {
+		ctx := plush.NewContextWithContext(valueCtx{context.Background(), v})
+		ctx.Set("who", func(h plush.HelperContext) string {
+			s, _ := h.Value(goKey{}).(string)
+			return "(" + s + ")"
+		})
+		ctx.Set("rec", func(h plush.HelperContext) (template.HTML, error) {
+			s, err := h.Block()
+			return template.HTML(s), err
+		})
+		ctx.Set("partialFeeder", func(string) (string, error) { return "<%= who() %>", nil })
+		return ctx
+	}
+	sites := []string{
+		"<%= partial(\"p\") %>",
+		"<% contentFor(\"c\") { %><%= who() %><% } %><%= contentOf(\"c\") %>",
+		"<%= contentOf(\"nope\") { %><%= who() %><% } %>",
+		"<%= for (i) in [1] { %><%= who() %><% } %>",
+		"<% let f = fn() { return who() } %><%= f() %>",
+		"<%= rec() { %><%= who() %><% } %>",
+		"<%= if (true) { %><%= who() %><% } %>",
+	}
+	site := sites[vrt.Choice(len(sites))]
+	vrt.Note("input", site)
+	got, err := plush.Render(site, mk())
+	want, werr := plush.Render("<%= who() %>", mk())
+	vrt.Assert(werr == nil && err == nil, "the helper renders in every scope")
+	vrt.Assert(got == want, "a helper called in a nested scope sees the Go context the caller's scope carries")
 	vrt.Cover("done")
 }
